@@ -1,3 +1,4 @@
+from fractions import Fraction
 """C07 — decimal literals are read exactly."""
 import itertools
 import re
@@ -107,8 +108,40 @@ def run(rng, tier, model_ok):
         ok = res is not None and len(res) == 1 and "ok" in res[0] and (int(res[0]["ok"][0]), int(res[0]["ok"][1])) == (v.numerator, v.denominator) and res[0]["ok"][2] == []
         if not ok:
             failures.append({"input": q, "api": "query", "expected": "%d/%d" % (v.numerator, v.denominator), "got": r, "why": "literal in a query denotes another number"})
-    for s, q in zip(lits, qs[::2]):
-        pass
+    # a literal denotes the same number whatever other literals stand in the same query: several of them side by side as separate
+    # results, unsigned ones as the operands of one product; mantissas and exponents are paired so that they agree in everything but
+    # one feature (the sign of the exponent, the sign of the number, a leading zero, a trailing point)
+    together = []
+    unsigned = [s for s in wf + longs[:60] if s[0] not in "+-" and len(s) <= 40]
+    for _ in range(300 if tier == "quick" else 5000):
+        a = rng.choice(unsigned)
+        twins = [a]
+        m = re.match(r"^(.*[eE])([+-]?)(\d+)$", a)
+        if m:
+            twins += [m.group(1) + "-" + m.group(3), m.group(1) + "+" + m.group(3), m.group(1) + m.group(3)]
+        else:
+            k = str(rng.randint(0, 12))
+            twins += [a + "e" + k, a + "e-" + k, a + "E+" + k] if re.search(r"\d$", a) or a.endswith(".") else []
+        twins.append(rng.choice(unsigned))
+        rng.shuffle(twins)
+        twins = twins[: rng.randint(2, 4)]
+        together.append((" ".join("(%s)" % t for t in twins), twins, "side"))
+        together.append((" * ".join(twins), twins, "product"))
+    trep, _, tcases = qcorr.build_cases([q for q, _, _ in together])
+    for (q, parts, how), r in zip(together, trep):
+        res = r.get("results") or []
+        vals = [literal_value(t) for t in parts]
+        if how == "side":
+            want = [(v.numerator, v.denominator) for v in vals]
+        else:
+            prod = Fraction(1)
+            for v in vals:
+                prod *= v
+            want = [(prod.numerator, prod.denominator)]
+        got = [(int(x["ok"][0]), int(x["ok"][1])) if "ok" in x else None for x in res]
+        if got != want:
+            failures.append({"input": q, "api": "query", "expected": str(want), "got": r, "why": "literals written in one query do not denote the numbers they spell"})
+    cases += [c for c, (q, _, _) in zip(tcases, together) if len(q) <= 60]
     cases += [c for c, q in zip(qcases, qs) if len(q) <= 60]
     mismatches = []
     if model_ok:
@@ -123,7 +156,7 @@ def run(rng, tier, model_ok):
     return {
         "evaluations": len(lits) * 3 + len(sweep), "distinct_nontrivial": len(nontrivial),
         "rule": "every well-formed literal of length <= %d over digits {0,1,9}, sign, point, e/E enumerated from the grammar (number parser, "
-                "query, query with %%), random literals with up to 300 digits, and every string of length <= %d over that alphabet "
+                "query, query with %%), random literals with up to 300 digits, several literals in one query (twins differing in one feature, side by side and multiplied), and every string of length <= %d over that alphabet "
                 "plus %% for the number-parser correspondence; non-trivial = distinct literals combining at least two of sign, "
                 "fraction, exponent, leading zero" % (maxlen, sweep_len),
         "samples": [wf[len(wf) // 3], wf[-5], longs[0][:80]],
